@@ -153,6 +153,8 @@ def apply_edits2(rxns, edits, iso0=()):
             remove(e[1][0])
             cur = cur + [[e[1][0], e[1][1], [list(x) for x in e[1][2]], [list(x) for x in e[1][3]]]]
             sp |= _occ(cur)
+        elif e[0] == "probe":               # other routes / options on the same object: network unchanged
+            pass
         elif e[0] == "coef":                # H.edges[id].reactants[s] = c   (species already on that side)
             for r in cur:
                 if r[0] == e[1]:
@@ -302,6 +304,11 @@ def same_shape_histories(rng, nrand=40, kind="history-same-shape"):
         out.append(_hist(net(["A + B <> C", "C >> 2 A"]), [["rmsp0", "B"], ["coef", "r_3", "r", "A", 1]], style, "same-shape/orphan-kept", kind))
         out.append(_hist(net(["A <> B", "B >> C", "C <> D"]), [["repl", ["r_3", "q", P("C"), P("B")]], ["repl", ["r_3", "r", P("B"), P("C")]]],
                          style, "same-shape/bridge-flipped", kind))
+        for view in ("hyper", "bip_int"):     # non-default options / other routes / caller-side edits between default analyses
+            out.append(_hist(net(["A + B <> C", "C >> 2 A"]), [["probe", 0], ["probe", 1], ["probe", 2], ["probe", 3]], style,
+                             "same-shape/%s-probes" % view, kind, view=view))
+            out.append(_hist(net(["A >> 2 A", "2 A >> 3 A"]), [["probe", 3], ["coef", "r_2", "r", "A", 1], ["probe", 0]], style,
+                             "same-shape/%s-probe-edit-probe" % view, kind, view=view))
         for view in ("bip_int", "bip_str"):   # the INPUT is a bipartite graph object whose coefficients are edited in place
             out.append(_hist(net(["A + B <> C", "C >> 2 A"]), [["coef", "r_3", "r", "A", 1], ["coef", "r_1", "l", "B", 2]], style,
                              "same-shape/%s-coef" % view, kind, view=view))
@@ -318,6 +325,9 @@ def same_shape_histories(rng, nrand=40, kind="history-same-shape"):
                 break
             z = rng.random()
             tgt = rng.choice(cur)
+            if rng.random() < 0.2:
+                edits.append(["probe", rng.randrange(4)])
+                continue
             if view != "hyper" or z < 0.4:
                 cands = [(sd, x[0]) for sd, side in (("l", tgt[2]), ("r", tgt[3])) for x in side]
                 if not cands:
